@@ -42,10 +42,11 @@ type replFaultClient struct {
 }
 
 // attach opens StreamWAL the way a replica does and then misbehaves according to mode:
-//   norecv  never calls Recv
-//   noack   reads everything, never acknowledges
-//   slow    reads one message every 100 ms
-//   cut     reads until ~1 MB arrived, then resets the TCP connection
+//
+//	norecv  never calls Recv
+//	noack   reads everything, never acknowledges
+//	slow    reads one message every 100 ms
+//	cut     reads until ~1 MB arrived, then resets the TCP connection
 func replAttachFaulty(addr, mode string) (*replFaultClient, error) {
 	fc := &replFaultClient{mode: mode}
 	dial := func(ctx context.Context, a string) (net.Conn, error) {
